@@ -168,14 +168,14 @@ PROPS["C05"] = {
     "level_text": ("Generated configurations (cookie secret, NSID, chaos, client and per-entry rate limits, hosts file, empty zones), upstream tables (positive, CNAME chains fully/partly present, NXDOMAIN, NODATA, RRSIG-bearing with generated windows, >1232/>4096-byte answers, SERVFAIL with/without EDE, EDE-bearing answers with foreign OPT options, ECS-scoped answers, escaped/binary labels) "
                    "and histories of byte-level query packets (every flag, opcodes, classes, OPT versions/ext-rcode/options incl. hand-encoded malformed ECS, count edits, truncation, compression pointers, trailing bytes) and sleeps are run twice on the real default chain - all packets wire-born vs all decoded - under identical virtual clocks; "
                    "decoded replies (header bits, rcode, question, per-section record multisets with TTLs, OPT version/size/DO/options), drop-vs-reply, cache contents with remaining lifetimes, failure-cache state and the upstream call count must be identical after every step. Thorough tier only: unit 'parsewire-fuzz' drives Request.ParseWire with Go's coverage-guided fuzzer (seeded with EDNS / cookie / NSID / keepalive / ECS questions): whatever it accepts the library must decode, and every accessor the chain reads (ID, type, class, flags, opcode, OPT presence, size, DO, version, option presence, cookie halves, materialised question) must equal the decoded request's. Exploration."),
-    "level_note": "Trusted: miekg/dns Unpack for decoding both transcripts; the harness transports stand in for the UDP/TCP engine jobs (StrictSlots + LeaseWire). Subtree-cut / RFC 8198 rungs need resolver provenance and are not reached by this stub upstream; inline-vs-worker replay is not compared.",
+    "level_note": "Trusted: miekg/dns Unpack for decoding both transcripts; the harness transports stand in for the UDP/TCP engine jobs (StrictSlots + LeaseWire). Subtree-cut / RFC 8198 admission needs resolver provenance: in two thirds of the cases the stub serves a zone (sz.example.org.) whose NXDOMAIN / NODATA answers carry complete NSEC proofs and are marked through the resolver-to-cache provenance seam (middleware.MarkValidatedNegativeProofResponse) for CD=0 resolutions, exactly as the validating resolver marks them, so the wire ladder's cut rung and the decoded denial rungs are reached (class wire:cut_served); inline-vs-worker replay is not compared.",
     "rule": ("evaluations = histories (2-14 steps, each run twice). Non-trivial = the wire run really served from the byte ladder (exact hit, alias chase or cached failure, measured from dns_cache_wire_fastpath_total deltas) or contained a byte-edited packet; distinct = hash(step shapes, config)."),
     "units": {
         "parsewire-fuzz": {"pkg": "./middleware", "engine": "fuzz", "fuzz": "FuzzVerifC05ParseWire", "run": "^FuzzVerifC05ParseWire$",
                            "tiers": {"thorough": {"fuzztime": 240, "timeout": 500, "mem_mb": 24000, "workers": 8}}},
         "twin": {"pkg": "./server", "run": "^TestVerifC05Twin$",
                  "tiers": {"quick": T(1200, 8, timeout=600), "thorough": T(40000, 12, timeout=3400)},
-                 "floors": {"C05.twin": {"wire-served": 0.2, "wire:chase_served": 0.02, "wire:failure_served": 0.005, "edited-packet": 0.1, "has-dropped-packet": 0.1}}},
+                 "floors": {"C05.twin": {"wire-served": 0.2, "wire:chase_served": 0.02, "wire:failure_served": 0.005, "wire:cut_served": 0.003, "edited-packet": 0.1, "has-dropped-packet": 0.1}}},
     },
 }
 
